@@ -258,19 +258,43 @@ def _case_oracle(env):
     return decide
 
 
+_CFG_CACHE = {}
+
+
+def _reaching_value(fn, name, env):
+    """Value expression of the assignment to local ``name`` that is reached when the tests are folded under ``env``
+    (a local bound in both arms of an if/else on the mode parameter); None unless exactly one is reached."""
+    from ..cfg import build
+
+    if id(fn) not in _CFG_CACHE:
+        if len(_CFG_CACHE) > 64:
+            _CFG_CACHE.clear()
+        _CFG_CACHE[id(fn)] = (fn, build(fn))
+    cfg = _CFG_CACHE[id(fn)][1]
+    r = walk(cfg, [(cfg.entry.id, 0)], lambda n, v: v, decide=_case_oracle(env))
+    vals = [cfg.nodes[i].ast.value for i in r if cfg.nodes[i].kind == "stmt" and isinstance(cfg.nodes[i].ast, (ast.Assign, ast.AnnAssign)) and name in q.assigned_paths(cfg.nodes[i].ast) and cfg.nodes[i].ast.value is not None]
+    return vals[0] if len(vals) == 1 else None
+
+
 def _resolve_callee(m, fn, call, env):
+    """Fully qualified callee of ``call`` under the case ``env``; None if it is a local that cannot be resolved."""
     f = call.func
-    if isinstance(f, ast.Name):
-        src = single_assignment(fn, f.id)
-        if src is not None:
-            f = src
     hops = 0
-    while isinstance(f, ast.IfExp) and hops < 4:
-        try:
-            f = f.body if q.fold(f.test, env) else f.orelse
-        except q.NotFoldable:
-            return None
+    while hops < 6:
         hops += 1
+        if isinstance(f, ast.IfExp):
+            try:
+                f = f.body if q.fold(f.test, env) else f.orelse
+            except q.NotFoldable:
+                return None
+            continue
+        if isinstance(f, ast.Name) and f.id in q.local_names(fn) and f.id not in m.funcs:
+            src = single_assignment(fn, f.id) or _reaching_value(fn, f.id, env)
+            if src is None:
+                return None
+            f = src
+            continue
+        break
     return qualify(m, f)
 
 
@@ -291,6 +315,8 @@ def rule_url(ck):
         for rt in rets:
             c = rt.ast.value
             callee = _resolve_callee(m, f.node, c, env) if isinstance(c, ast.Call) else None
+            if isinstance(c, ast.Call) and callee is None:
+                raise AnalysisError("url_escape(plus=%s): the function applied to the value is not resolved: %s" % (pv, q.unparse(c.func)))
             ck.ob(rid, f, rt.ast, callee == WANT_Q[pv], "url_escape(plus=%s) uses %s (found %s)" % (pv, WANT_Q[pv], callee), construct="url_escape plus=%s -> %s" % (pv, callee))
             ck.ob(rid, f, rt.ast, isinstance(c, ast.Call) and len(c.args) == 1 and q.dotted(c.args[0]) == val and not c.keywords, "the whole value is quoted with the default safe set", construct="url_escape plus=%s args" % pv)
     dflt = f.node.args.defaults
@@ -605,9 +631,9 @@ def rule_utf8(ck):
 
 
 def run(ck):
-    from ..x_valuewalk import guard_obligations, plain_assignments
+    from ..x_valuewalk import guard_obligations, canonical
 
-    ck.repo = plain_assignments(ck.repo, ['tornado/escape.py'])
+    ck.repo = canonical(ck.repo, ['tornado/escape.py'], keep_names=('_DEFAULT_AUTOESCAPE',))
 
     guard_obligations(ck, [])
     ck.rule("C21.html", "xhtml_escape = html.escape(to_unicode(value)) with quote escaping; xhtml_unescape = html.unescape(to_unicode(value))")
